@@ -1,7 +1,7 @@
 (* C01 — Logical operators compute the pointwise Boolean function of their operands.
    Only statements, each closed by `exact`; the proofs live in Proofs/. *)
 From Coq Require Import List NArith Bool. Import ListNotations.
-From BddVerif Require Import Model.Bdd Model.Apply Proofs.Sem Proofs.Canon Proofs.ApplySem Proofs.ApplyTop.
+From BddVerif Require Import Model.Bdd Model.Apply Model.Ops Proofs.Sem Proofs.Canon Proofs.ApplySem Proofs.ApplyTop Proofs.TernSem Proofs.NotSem.
 Open Scope N_scope.
 
 (* binary_op / fused_binary_flip_op driven by any consistent partial-operator table: for valid operands
@@ -31,6 +31,38 @@ Theorem C01_builtin_tables :
   builtin_ok op_iff Bool.eqb /\ builtin_ok op_xor xorb /\ builtin_ok op_and_not (fun a b => a && negb b).
 Proof. exact (conj and_table_ok (conj or_table_ok (conj imp_table_ok (conj iff_table_ok (conj xor_table_ok and_not_table_ok))))). Qed.
 Print Assumptions C01_builtin_tables.
+
+(* ternary_op / fused_ternary_flip_op for any ternary table (only its total entries matter): pointwise *)
+Theorem C01_ternary_pointwise : forall A B C fa fb fc fo op,
+  wf A -> wf B -> wf C -> nvars A = nvars B -> nvars B = nvars C ->
+  flip_ok (nvars A) fa && flip_ok (nvars A) fb && flip_ok (nvars A) fc && flip_ok (nvars A) fo = true ->
+  exists r, fused_ternary_flip_op A B C fa fb fc fo op = Ok r /\ Canonical r /\ nvars r = nvars A /\
+    forall v, eval r v = conn3 op (eval A (oflip fa (oflip fo v))) (eval B (oflip fb (oflip fo v))) (eval C (oflip fc (oflip fo v))).
+Proof. exact fused_ternary_flip_op_correct. Qed.
+Print Assumptions C01_ternary_pointwise.
+
+(* eager and lazy ternary tables of one connective give the same result *)
+Theorem C01_ternary_eager_lazy_same : forall A B C fa fb fc fo op1 op2,
+  (forall a b c, conn3 op1 a b c = conn3 op2 a b c) ->
+  fused_ternary_flip_op A B C fa fb fc fo op1 = fused_ternary_flip_op A B C fa fb fc fo op2.
+Proof. exact ternary_eager_lazy_same_any. Qed.
+Print Assumptions C01_ternary_eager_lazy_same.
+
+Theorem C01_if_then_else : forall A B C, wf A -> wf B -> wf C -> nvars A = nvars B -> nvars B = nvars C ->
+  exists r, if_then_else A B C = Ok r /\ Canonical r /\ nvars r = nvars A /\
+    forall v, eval r v = if eval A v then eval B v else eval C v.
+Proof. exact if_then_else_correct. Qed.
+Print Assumptions C01_if_then_else.
+
+(* the ite table is total and answers on partial information only when every completion agrees *)
+Theorem C01_ite_table : total3 ite_function /\ consistent3 ite_function.
+Proof. exact (conj ite_total3 ite_consistent3). Qed.
+Print Assumptions C01_ite_table.
+
+(* not: for every valid diagram, canonical or not *)
+Theorem C01_not_pointwise : forall b, wf b -> wf (bdd_not b) /\ nvars (bdd_not b) = nvars b /\ forall v, eval (bdd_not b) v = negb (eval b v).
+Proof. intros b W. exact (conj (not_wf b W) (conj (not_nvars b W) (not_sem b W))). Qed.
+Print Assumptions C01_not_pointwise.
 
 (* non-vacuity: a concrete non-trivial instance meets the hypotheses *)
 Example C01_nonvacuous :
